@@ -56,8 +56,14 @@ def step(ctx, case):
             ctx.check('selection after the command', w.ctl.current_connection is (w.conns[cur_sel] if cur_sel is not None else None))
         n1 = len(w.out.items)
         arrived = []
-        for ci in arrivals:
-            arrived.append((ctl.add_message(w, ci), ci))
+        from core import wl
+        for k, ci in enumerate(arrivals):
+            # messages the connection-naming code looks at (and may choke on) are messages like any other
+            kind = ctx.choose(['plain', 'title', 'title-empty', 'app-id', 'app-id-not-a-string', 'layer-surface-short'], 'kind%d' % k) if k == 0 else 'plain'
+            name, args = {'plain': ('sync', ()), 'title': ('set_title', (wl.Arg.String('a title'),)), 'title-empty': ('set_title', (wl.Arg.String(''),)),
+                          'app-id': ('set_app_id', (wl.Arg.String('org.x.App'),)), 'app-id-not-a-string': ('set_app_id', (wl.Arg.Int(3),)),
+                          'layer-surface-short': ('get_layer_surface', (wl.Arg.Int(1),))}[kind]
+            arrived.append((ctl.add_message(w, ci, name=name, args=args), ci))
         shown = ctl.msg_lines(w.out.items[n1:])
         exp_order = [m.tag for m, ci in arrived]
         ctx.check('only arriving messages are shown, each at most once, in arrival order', [t for t in exp_order if t in shown] == shown)
